@@ -488,6 +488,9 @@ func cmdDriveHistory(args []string) error {
 		// the same line in two lists (subscriptions overlap): each copy is a rule of its own list
 		dup := "||" + histHosts[hr.Intn(len(histHosts))] + "^"
 		lines = append(append([]string{dup}, lines...), lines[0], lines[1], dup)
+		// two rules with one pattern, case-sensitive for images and not for scripts: the first requests of every history
+		// reach the pattern of the one, then of the other (what the first leaves behind must not serve the second)
+		lines = append(lines, "/Promo/banner$match-case,image", "/Promo/banner$script")
 		// every 3rd history: the lists of the long-lived engines have a spell of failing retrievals (queries asked during
 		// the spell are not part of the history: an I/O error is the environment's doing); afterwards every answer has to
 		// be the fresh engine's again
@@ -537,6 +540,12 @@ func cmdDriveHistory(args []string) error {
 			}
 			inOrder = append(near, inOrder...)
 		}
+		inOrder = append([]*histQuery{
+			// (the fresh process asks in the reverse order: there the image requests come first)
+			{kind: "net", host: "static.site.com", url: "https://static.site.com/promo/BANNER.js", src: "https://site.com/", typ: rules.TypeScript},
+			{kind: "net", host: "static.site.com", url: "https://static.site.com/Promo/banner.png", src: "https://site.com/", typ: rules.TypeImage},
+			{kind: "net", host: "static.site.com", url: "https://static.site.com/promo/banner.png", src: "https://site.com/", typ: rules.TypeImage},
+		}, inOrder...)
 		pool[0] = &histQuery{kind: "web", host: "tracker.test", url: "http://tracker.test/q/banner.png", src: "https://sub.example.org/", typ: rules.TypeImage}
 		pool[1] = &histQuery{kind: "net", host: "tracker.test", url: "http://tracker.test/q/banner.png", src: "https://sub.example.org/news/", typ: rules.TypeImage}
 		for i := 0; i < hl; i++ {
